@@ -263,8 +263,12 @@ def run_case(idx, rng, P, rep):
                 model_objs.insert(i, x)
             elif op == 'extend':
                 xs = [fresh(rng) for _ in range(rng.randint(0, 3))]
-                trace.append((op, xs))
-                o.extend(xs)
+                form = rng.choice(['list', 'list', 'tuple', 'iterator'])
+                trace.append((op, xs, form))
+                # (any iterable, as for a list: also one that can be consumed only once)
+                o.extend(xs if form == 'list' else tuple(xs) if form == 'tuple' else iter(xs))
+                if form == 'iterator':
+                    rep.count('one_shot_iterables')
                 model_objs.extend(xs)
             elif op == 'iadd':
                 # the augmented-assignment idiom: extends a proxy and assigns it back (a wholesale replacement)
